@@ -925,4 +925,4 @@ LEVEL_NOTE = (
     "modulename_callable and custom TemplateCollection subclasses are outside the bound. Existence probes (stat) of "
     "outside paths are not observed."
 )
-READY = False
+READY = True
